@@ -318,6 +318,20 @@ static std::string run_config(const Config & c_in, int depth, long nlong)
         steer.push_back(f);
         steer_canon.push_back(e);
       }
+    // pairs: a sampler's candidate in a tail AND its acceptance deviate at 0 (the candidate is then always accepted): the
+    // clamps and floors behind rejection loops (a lepton below 50 eV, a candidate at the end-point) are reached after every
+    // history too - a single forced position leaves the acceptance to the default stream
+    for (size_t i = 0; i + 1 < std::min<size_t>(nd, 13); i++)
+      for (double v : {1e-12, 1 - 1e-12}) {
+        Forced f;
+        f[i] = v;
+        f[i + 1] = 1e-12;
+        Ev e;
+        if (!canonical_in_child(c, PROBES[0], &f, e)) continue;
+        if (e.threw || e.horizon) continue;
+        steer.push_back(f);
+        steer_canon.push_back(e);
+      }
   }
   auto probe_all = [&](Ctx & X, const std::string & hist) {
     for (size_t k = 0; k < steer.size(); k++) {
